@@ -85,13 +85,25 @@ class Module(object):
         with warnings.catch_warnings():
             warnings.simplefilter('ignore')
             self.tree = ast.parse(self.src, filename=path)
+        self.normalised = {}
+        if not os.environ.get('TTSA_NO_NORMALISE'):
+            # N18: one way of naming the other modules of the package and what they define
+            import copy
+            from . import normalise
+            pristine = copy.deepcopy(self.tree)
+            try:
+                k = normalise.canonicalise_imports(self.tree, PKG, MODULES, name)
+                if k:
+                    compile(self.tree, self.path, 'exec')
+                    self.normalised['N18'] = k
+            except Exception:
+                self.tree = pristine
         self.aliases = {}      # local alias -> package module name
         for st in self.tree.body:
             if isinstance(st, ast.ImportFrom):
                 if (st.level >= 1 and not st.module) or (st.level == 0 and st.module == PKG):
                     for a in st.names:
                         self.aliases[a.asname or a.name] = a.name
-        self.normalised = {}
 
     def finish(self, ctx=None):
         """Canonicalise the tree (ttsa.normalise) and index functions, classes, imports, constants."""
@@ -102,7 +114,13 @@ class Module(object):
             try:
                 nc = normalise.substitute_constants(self.tree, self.name, dict(self.aliases), ctx.get('consts', {}),
                                                     ctx.get('keep', set()))
+                pre = dict(self.normalised)
                 self.tree, self.normalised = normalise.normalise(self.tree, ctx, self.name, dict(self.aliases))
+                for k_, v_ in pre.items():
+                    self.normalised[k_] = self.normalised.get(k_, 0) + v_
+                # helpers inlined from other modules bring their constants with them
+                nc += normalise.substitute_constants(self.tree, self.name, dict(self.aliases), ctx.get('consts', {}),
+                                                     ctx.get('keep', set()))
                 if nc:
                     self.normalised['N11'] = nc
                 compile(self.tree, self.path, 'exec')        # the rewritten tree must still be a valid program
